@@ -499,7 +499,21 @@ func genBlockStorm(w *bufio.Writer, root string, seed uint64, n, ops int) {
 			x.mu.Unlock()
 		}
 		phase.Store("closed")
-		cerr := blk.Close()
+		var cerr error
+		closed := make(chan struct{})
+		go func() { cerr = blk.Close(); close(closed) }()
+		select {
+		case <-closed:
+		case <-time.After(10 * time.Second):
+			// Close itself does not come back: nothing more can be learnt from this process
+			for _, l := range pubLines {
+				fmt.Fprintln(w, l)
+			}
+			fmt.Fprintf(w, "bs.settled total=%d => ok %s\n", total, strings.Join(st, " "))
+			fmt.Fprintf(w, "bs.close hung=1 => err hang\n")
+			w.Flush()
+			os.Exit(0)
+		}
 		done := make(chan struct{})
 		go func() { wg.Wait(); close(done) }()
 		hung := false
